@@ -18,10 +18,23 @@
    scenarios of one shape are replayed as sessions in which the next instance is, per the scenario's buffer mode,
    written in place into the SAME tensor object and / or given to the SAME aggregator object as the previous ones,
    or handed over in new objects - the expected values are per instance and never change.
+   ROW-SCALED FAMILY (DualCone.tla section of that name, MC_DualCone_rs_<tier>.cfg, scenarios RSCN): J = 2^e D_r J0 with
+   the rows scaled by eps^rho_i, eps = 2^-P carried symbolically (EpsScale.tla); the regularisation is tied to the trace,
+   reg_eps s^2 = (p/q) tr G, so that the exact minimiser is a rational function of eps for EVERY matrix; TLC solves the KKT
+   system over Z[eps] (sign rule, valid for all P >= needP) for the default preference and every preference vector with
+   entries in {0, eps^te, 1} (one-hot, sparse, tiny entries), checks existence / uniqueness, the identity without
+   conflict, positive homogeneity and the refinement of the integer projection on unscaled instances.  A hash sample of
+   all matrices (seed-rotated) plus seeded random instances (any pattern of scaled rows) are instantiated at P on the
+   ladder {7, 14, 20, 27, 30, 34, 40} (row norms 2 .. 12 orders of magnitude apart) and run on UPGrad / DualProj with
+   reg_eps = (p/q) tr G / s^2 (s^2 enclosed by an exact Sylvester certificate): weights and output must be the exact ones
+   within the derived float64 allowance (K64 eps64 / reg_eps + 2 ETA_S + 2 eps64) |w*|_1; overall scales 2^0, 2^P and one
+   below norm_eps; preference given as float64 / float32 / int64.
 3. C -> S: random F2 episodes validated by TraceDualCone (the logged weights must be the
    specification's; sessions of calls on re-used tensor / aggregator objects with the preference vector in any
    admissible dtype, the claimed history re-derived by the trace specification), Gaussian / irrational ones at
-   predicate level (KKT system in float64; float32 matrices, foreign preference dtypes and re-used buffers too).
+   predicate level (KKT system in float64 within the same derived allowance; float32 matrices, foreign preference dtypes
+   and re-used buffers too; 40 % of the matrices with rows scaled by powers of ten down to 1e-12, preference vectors with
+   zero and tiny (2^-36) entries).
 """
 
 from __future__ import annotations
@@ -32,13 +45,69 @@ import random
 import torch
 
 from ..core import Ctx, MachineryError
-from ..dualcone_replay import case_key, eval_c03, replay_history, sessions_of, work_c03
+from ..dualcone_replay import case_key, eval_c03, replay_history, rs_random_instances, sessions_of, work_c03, work_c03_rs
 from ..dualcone_trace import replay_raised, rerun_episodes, report_raised, exact_episodes, kkt_predicate, predicate_episodes, \
     replay_predicate, validate_exact
 from ..par import pmap
-from ..tlc import run_tlc
+from ..tlc import SPEC_DIR, run_tlc
 
 PID = "C03"
+RS_INVARIANTS = ["RSKKTExistsUnique", "RSNoConflictIsIdentity", "RSHomogeneous", "RSRefinesInteger", "RSBracketSound"]
+# the shapes [m, n, e, mod] of RSFamQuick / RSFamThorough (DualCone.tla); a disagreement with the specification shows as
+# a scenario-count mismatch (machinery failure)
+RS_SHAPES = {"quick": [(2, 2, 2, 4), (2, 3, 1, 16), (3, 2, 1, 16), (3, 3, 1, 512)],
+             "thorough": [(2, 2, 2, 1), (2, 3, 1, 2), (3, 2, 1, 2), (3, 3, 1, 64)]}
+
+
+def rs_model_run(tier: str, seed: int, insts: list[dict]):
+    """TLC on the ROW-SCALED family of DualCone.tla (MC_DualCone_rs_<tier>.cfg; SamplePick = seed rotates the sample of
+    kept matrices) plus the seeded random instances `insts` (file branch).  No ctx access: runs in a worker thread next
+    to the main model check."""
+    import os
+    import tempfile
+    cfg = (SPEC_DIR / f"MC_DualCone_rs_{tier}.cfg").read_text()
+    if "CONSTANT SamplePick = 0" not in cfg:
+        raise MachineryError("MC_DualCone_rs cfg: SamplePick line not found")
+    cfg = cfg.replace("CONSTANT SamplePick = 0", f"CONSTANT SamplePick = {seed}")
+    with tempfile.TemporaryDirectory(prefix="verif_c03rs_") as d:
+        path = os.path.join(d, "rs.json")
+        with open(path, "w") as f:
+            json.dump(insts, f)
+        return run_tlc("DualCone", cfg_text=cfg, workers="auto", seed=seed, env={"RS_FILE": path}, timeout=2400, check=False)
+
+
+def rs_expected_count(tier: str, pick: int) -> int:
+    """Number of row-scaled instances the model must export for the tier's shapes and SamplePick (zero matrices are
+    analysed but not exported)."""
+    import itertools
+    from ..badscale import spec_hash
+    total = 0
+    for (m, n, e, mod) in RS_SHAPES[tier]:
+        kept = sum(1 for ents in itertools.product(range(-e, e + 1), repeat=m * n)
+                   if (spec_hash(ents) + pick) % mod == 0 and any(ents))
+        total += kept * (m - 1)
+    return total
+
+
+def rs_scenarios(ctx: Ctx, res, insts: list[dict]) -> list[dict]:
+    if res.error is not None:
+        raise MachineryError(f"TLC machinery failure on DualCone (row-scaled family):\n{res.error[:2000]}")
+    ctx.add_tlc(res)
+    if res.violated:
+        raise MachineryError(f"DualCone (row-scaled family): the specification itself violates {res.violated}\n{res.cex[:1500]}")
+    ikey = lambda s: (json.dumps(s["J0"]), tuple(s["rho"]))      # noqa: E731
+    scns = list({ikey(s): s for s in res.prints.get("RSCN", [])}.values())
+    fkeys = {ikey(i) for i in insts}
+    want = rs_expected_count(ctx.tier, ctx.seed)
+    n_enum = sum(1 for s in scns if ikey(s) not in fkeys)
+    if not (want - len(insts) <= n_enum <= want) or not fkeys <= {ikey(s) for s in scns}:
+        raise MachineryError(f"DualCone row-scaled family: {len(scns)} distinct scenarios exported ({n_enum} not in the file), "
+                             f"expected {want} enumerated + {len(insts)} listed")
+    scns.sort(key=lambda s: (s["m"], s["n"], s["J0"], s["rho"]))
+    ctx.extra["rs_scenarios_exported"] = len(scns)
+    ctx.extra["rs_listed_random_instances"] = len(insts)
+    ctx.extra["rs_model_invariants"] = list(RS_INVARIANTS)
+    return scns
 MODEL_INVARIANTS = ("KKTExistsUnique", "NoConflictIsIdentity", "InConeIsIdentity", "Feasible", "Minimal",
                     "UPGradHomogeneous", "F2Sound", "LimitWellDefined", "BracketSound", "PresentationsSound")
 
@@ -90,7 +159,10 @@ def run(ctx: Ctx, replay: str | None) -> None:
     ctx.rule = ("one case = (aggregator in {UPGrad, DualProj}, integer matrix J0 of the TLC family, preference vector, "
                 "(norm_eps, reg_eps), scale 2^e, presentation: preference dtype, matrix dtype, new / re-used tensor and "
                 "aggregator objects); every matrix of the family is enumerated by TLC and replayed; "
-                "non-trivial = J0 has two rows with a negative inner product (an active projection) and s >= norm_eps")
+                "non-trivial = J0 has two rows with a negative inner product (an active projection) and s >= norm_eps; "
+                "row-scaled family: J = 2^e D_r J0 (rows scaled by 2^-P, P in {7, 14, 20, 27, 30, 34, 40}), preference vectors "
+                "with entries in {0, 2^-P, 4^-P, 1} and the default one, reg_eps = (p/q) tr G / s^2, non-trivial = two rows "
+                "with a negative inner product")
     ctx.assumptions += [
         "2^e * integer matrices and dyadic eps are exact in float64; rationals of denominator <= 1e4 are identified "
         "by Fraction.limit_denominator with residual <= 1e-9 (denominators above: residual only)",
@@ -101,12 +173,24 @@ def run(ctx: Ctx, replay: str | None) -> None:
         "(64 eps32 / reg_eps + 2 eps32) |w*|_1 (perturbation bound of the QP minimiser derived in dualcone_replay.eval_c03; "
         "64 eps32 is the ASSUMED backward error of the float32 SVD + U diag U^T), elsewhere at predicate level",
         "a preference vector is presented only in dtypes that hold it exactly (decided by the specification: Presentable)",
+        "row-scaled family: every sign of the KKT analysis is decided by the sign rule of EpsScale.tla (valid for P >= needP); "
+        "the code is given reg_eps = fl((p/q) tr G / lam) with lam a float certified by exact rational arithmetic "
+        "(Sylvester) to enclose s^2 within 2^-44; float64 allowance (K64 eps64 / reg_eps + 2^-43 + 2 eps64) |w*|_1 on the "
+        "weights (perturbation bound of the strictly convex QP, lambda_min >= reg_eps; K64 = 64 is the ASSUMED backward "
+        "error of SVD + U diag U^T + QP solve in units of eps64; measured: below 1 % of the allowance), sqrt(tr G) times "
+        "that on the output",
     ]
     if replay:
         _replay_payload(ctx, json.load(open(replay))["payload"])
         return
 
-    scns = model_check(ctx, PID)
+    from concurrent.futures import ThreadPoolExecutor
+    rs_insts = rs_random_instances(random.Random(ctx.seed * 7919 + 3), 60 if ctx.tier == "quick" else 400)
+    with ThreadPoolExecutor(1) as ex:
+        rs_future = ex.submit(rs_model_run, ctx.tier, ctx.seed, rs_insts)
+        scns = model_check(ctx, PID)
+        rs_res = rs_future.result()
+    rs_scns = rs_scenarios(ctx, rs_res, rs_insts)
     if ctx.tier == "thorough":
         # all m <= 2 instances, and the 3-row ones of one residue class (seed-dependent) out of three
         pick = [s for s in scns if s["m"] <= 2 or s["n"] <= 2 or
@@ -130,12 +214,31 @@ def run(ctx: Ctx, replay: str | None) -> None:
         for key, what, payload in r["fails"]:
             ctx.violation(key, what, payload)
     ctx.count("sessions", len(sessions))
+    # ---- the row-scaled family: eps = 2^-P instantiated on the ladder, sparse / one-hot / tiny-entry preference vectors
+    for s, r in zip(rs_scns, pmap(work_c03_rs, [(s, ctx.tier, ctx.seed) for s in rs_scns], chunksize=4)):
+        ctx.evaluations += r["n"]
+        ctx.traces += 1
+        for k, v in r["cnt"].items():
+            ctx.count(k, v)
+        for k, v in r["kinds"].items():
+            ctx.count("cases_" + k, v)
+        if s["conflict"]:
+            ctx.nontrivial("rs:" + json.dumps([s["J0"], s["rho"]]))
+        for key, what, payload in r["fails"]:
+            ctx.violation(key, what, payload)
+    s = rs_scns[len(rs_scns) // 2]
+    ctx.sample({"rs_scenario": {k: s[k] for k in ("J0", "rho", "tr", "lamK", "te", "conflict", "needP", "regs")} |
+                               {"prefs": [p["code"] for p in s["prefs"]], "wd_first": s["sol"][0]["wd"][1]}})
     for s in (pick[len(pick) // 3], pick[-1]):
         ctx.sample({"scenario": {k: s[k] for k in ("J", "lamLo", "lamInt", "conflict", "prefs")} |
                                 {"f2_first": s["f2"][0][1] if s["f2"] else None, "f1_first": s["f1"][1]}})
-    need = ["cases_f2", "cases_f1", "cases_below"] + \
+    need = ["cases_f2", "cases_f1", "cases_below", "cases_rs", "cases_rs_below", "cases_rs_tiny_pref_entry", "cases_rs_sparse_pref",
+            "cases_rs_pref_none", "cases_rs_pref_f64", "cases_rs_pref_f32", "cases_rs_pref_i64"] + \
+           [f"cases_rs_P{P}" for P in (27, 30, 34, 40)] + \
            [f"cases_matrix_{md}_pref_{pd}" for md in ("f64", "f32") for pd in ("none", "f64", "f32", "i64")] + \
            [f"cases_tensor_{t}_agg_{a}" for t in ("fresh", "reused") for a in ("fresh", "reused")]
+    if ctx.counters.get("rs_uncertified_skipped", 0) > ctx.counters.get("rs_instances", 0) // 10:
+        raise MachineryError(f"row-scaled family: too many instances without a certified s^2: {ctx.counters}")
     if any(not ctx.counters.get(k) for k in need):
         raise MachineryError(f"vacuous replay ({[k for k in need if not ctx.counters.get(k)]} missing): {ctx.counters}")
 
@@ -152,5 +255,5 @@ def run(ctx: Ctx, replay: str | None) -> None:
         ctx.sample({"episode": {k: e[k] for k in ("J", "e", "a", "reg", "u", "pdt", "tmode", "amode", "agg", "w")}})
     n_pred = predicate_episodes(ctx, rng, 150 if ctx.tier == "quick" else 1000, PID)
     ctx.count("predicate_level_episodes", n_pred)
-    ctx.note("predicate level only (DESIGN 8): Gaussian / irrational-lambda episodes (KKT system evaluated in float64); "
+    ctx.note("predicate level only (DESIGN 8): Gaussian / irrational-lambda / row-scaled Gaussian episodes (KKT system evaluated in float64); "
              "F1 instances are compared with the delta->0 projection within the derived allowance, not by equality")
